@@ -647,6 +647,20 @@ fn vs_bob(ctx: &mut Ctx, local: &[Small], peer: &[Small], accept: u8, script: &[
             Err(_) => return Err("WATCHDOG".to_string()),
             Ok(r) => r?,
         };
+        // mirrored counts against a scripted peer: whatever entered the store during this session arrived in the peer's
+        // frames, so on success the acceptor cannot report fewer received entries than that
+        if res.is_ok() {
+            let new_here = after.iter().filter(|e| !before.contains(e)).count();
+            if _out.num_recv < new_here {
+                o.fail(
+                    "C10/counters",
+                    format!("the accepting side finished successfully and took {} new entries from the peer's frames into its store, but reports {} received (sent {})", new_here, _out.num_recv, _out.num_sent),
+                );
+            }
+            if new_here > 0 {
+                o.class("acceptor/ok-and-took-entries-from-a-scripted-peer");
+            }
+        }
         if (accept != 0 || !first_is_init) && after != before {
             o.fail("C10/declined-changed-store", format!("no request was accepted, yet the store went from {} to {}", describe_all(&before), describe_all(&after)));
         }
